@@ -42,7 +42,7 @@ ASSUMPTIONS = [
     "float matrices are well conditioned (|det| >= 0.05); singular matrices only with integer entries",
     "Transform algebra over non-singular matrices with entries <= 4, |det| >= 0.05, offsets <= 1000, tolerance 1e-9 (relative to the offset scale)",
 ]
-WALL_BUDGET = {"quick": 900, "thorough": 3 * 3600}
+WALL_BUDGET = {"quick": 1500, "thorough": 4 * 3600}
 
 # ---------------------------------------------------------------------------
 # reference models (independent of fontTools)
@@ -805,7 +805,10 @@ def check_seg(case, acc, record=True):
             pen = ttGlyphPen.TTGlyphPen(None, outputImpliedClosingLine=oicl)
             gp.replay_ops(keep, pen)
             drop = fl["drop"] if oicl == fl["oicl"] else not fl["drop"]
+            npts = len(pen.points)
             g = pen.glyph(dropImpliedOnCurves=drop)
+            if drop and len(g.coordinates) < npts:
+                acc.label("tt:implied-on-curve-points-dropped")
             r = RecordingPen()
             g.draw(r, None)
             compare(acc, "TTGlyphPen", case, geom.canon(r.value, drop_empty=True), exp, 0.0)
@@ -1150,6 +1153,13 @@ def check_pt(case, acc, record=True):
             if bad:
                 acc.exclude("TTGlyphPointPen:'curve'-segment-without-exactly-2-off-curves")
                 continue
+            if fl["drop"] and len(c) > 1 and types[0] is None and types[1] == "curve":
+                # dropImpliedOnCurvePoints can leave a cubic contour without on-curve points whose
+                # point list starts with the SECOND handle of a segment; Glyph.draw pairs handles
+                # from index 0 (reported). Fed starting at its first on-curve point instead.
+                acc.exclude("dropImpliedOnCurves:cubic-contour-starting-at-second-handle(rotated)")
+                c = c[1:] + c[:1]
+                types = [p[2] for p in c]
             if keep and len(c) > 1 and types[0] is None and any(t is not None for t in types):
                 first_on = next(i for i, t in enumerate(types) if t is not None)
                 if types[first_on] == "curve":
@@ -1162,7 +1172,10 @@ def check_pt(case, acc, record=True):
         exp = geom.canon(close_all(ref_items_to_ops([_closed_item(it) for it in keep])), drop_empty=True)
         pen = ttGlyphPen.TTGlyphPointPen(None)
         gp.replay_items(keep, pen, identifiers=False)
+        npts = len(pen.points)
         g = pen.glyph(dropImpliedOnCurves=fl["drop"])
+        if fl["drop"] and len(g.coordinates) < npts:
+            acc.label("tt:pointpen:implied-on-curve-points-dropped")
         r = RecordingPen()
         g.draw(r, None)
         compare(acc, "TTGlyphPointPen", case, geom.canon(r.value, drop_empty=True), exp, 0.0)
@@ -1308,10 +1321,10 @@ def jobs(tier, seed):
             J.append(dict(gen=gen, kind=kind, mode=mode, name="%s-%s-%s-%d" % (gen, kind, mode, i), n=n, seed=subseed(seed, gen, kind, mode, i)))
 
     # structured Hypothesis strategies (slow to draw: ~10x the cost of the sub-checks)
-    add("hyp", "seg", "int", 4 * m, 200)
-    add("hyp", "seg", "float", 4 * m, 120)
-    add("hyp", "pt", "int", 3 * m, 200)
-    add("hyp", "pt", "float", 4 * m, 100)
+    add("hyp", "seg", "int", 4 * m, 150)
+    add("hyp", "seg", "float", 4 * m, 80)
+    add("hyp", "pt", "int", 3 * m, 150)
+    add("hyp", "pt", "float", 4 * m, 70)
     # seeded generator, one Hypothesis draw (the seed) per case
     add("fast", "seg", "int", 12 * m, 1500)
     add("fast", "seg", "float", 8 * m, 1000)
@@ -1608,6 +1621,8 @@ REQUIRED_LABELS = [
     "t2:exact-leg:compiled",
     "tt:composite-glyph",
     "tt:components-decomposed-by-pen",
+    "tt:implied-on-curve-points-dropped",
+    "tt:pointpen:implied-on-curve-points-dropped",
 ]
 
 
